@@ -1,1 +1,44 @@
 //! Reference evaluators, written from the property texts (not from ast.rs).
+pub mod cpxr;
+pub mod decr;
+pub mod f64r;
+pub mod i64r;
+pub mod numr;
+
+use crate::api::{Ev, Outcome, Val};
+use crate::grammar::E;
+
+/// Agreement of an observed outcome with the reference evaluation of `e`, for the *exactly specified*
+/// part of each evaluator's language.  None = the reference makes no exact claim for this tree.
+pub fn exact_agrees(ev: Ev, e: &E, ph: &Val, got: &Outcome) -> Option<(bool, String)> {
+    match (ev, ph) {
+        (Ev::F64, Val::F(p)) => match f64r::eval(e, *p) {
+            f64r::RF::Exact(w) => Some((matches!(got, Outcome::Ok(Val::F(g)) if Val::F(*g).same(&Val::F(w))), format!("Ok({:?})", w))),
+            f64r::RF::Err => Some((got.is_err(), "Err".into())),
+            _ => None,
+        },
+        (Ev::I64, Val::I(p)) => {
+            let r = i64r::eval(e, *p);
+            i64r::agrees(r, got).map(|b| (b, format!("{:?}", r)))
+        }
+        (Ev::Num, p) => {
+            let r = numr::eval(e, numr::val_to_n(p)?);
+            numr::agrees(r, got).map(|b| (b, format!("{:?}", r)))
+        }
+        (Ev::Dec, Val::D(p)) => {
+            let r = decr::eval(e, p);
+            let shown = match &r {
+                decr::RD::Val(v) => format!("Ok({})", v.show()),
+                decr::RD::Quot(a, b) => format!("~{}/{}", a.show(), b.show()),
+                decr::RD::Err => "Err".into(),
+                decr::RD::Unspec(w) => format!("Unspec({})", w),
+            };
+            decr::agrees(&r, got).map(|b| (b, shown))
+        }
+        (Ev::Cpx, Val::C(a, b)) => match cpxr::eval(e, (*a, *b)) {
+            cpxr::RC::Exact(w) => Some((matches!(got, Outcome::Ok(Val::C(x, y)) if Val::C(*x, *y).same(&Val::C(w.0, w.1))), format!("Ok({:?}+{:?}i)", w.0, w.1))),
+            _ => None,
+        },
+        _ => None,
+    }
+}
